@@ -90,6 +90,11 @@ func reentLog() {
 	}
 }
 
+// panicV is a value whose String method panics.
+type panicV struct{}
+
+func (panicV) String() string { panic("panicV.String") }
+
 // reentW is a recording writer that logs a side record before it looks at its bytes.
 type reentW struct{ plainW }
 
